@@ -39,6 +39,13 @@ for pid in pids:
         v = [l for l in r.stdout.decode().split('\n') if l.startswith('VIOLATION')]
         outs.append({'seed': int(seed), 'exit': r.returncode, 'violations': len(v), 'wall_s': round(time.time() - t0, 1)})
     checks[pid] = outs
+if '--from-seeded' in sys.argv and os.path.exists('/verif/seeded/%s/result.json' % mid):
+    # re-evaluation of some checks: keep the stored results of the others
+    old = json.load(open('/verif/seeded/%s/result.json' % mid))
+    for k in ('demo_exit_without_change', 'demo_exit_with_change', 'test_suite_with_change', 'patch_applies'):
+        if k in old and (k not in res or '--notests' in sys.argv and k == 'test_suite_with_change'):
+            res[k] = old[k]
+    checks = dict(old.get('checks', {}), **checks)
 res['checks'] = checks
 res['caught_by'] = sorted(p for p, o in checks.items() if any(x['exit'] == 1 for x in o))
 res['caught_every_seed_by'] = sorted(p for p, o in checks.items() if all(x['exit'] == 1 for x in o))
